@@ -23,6 +23,9 @@ pub enum Entropy {
     /// 400 PRNG bytes followed by a run of one byte: incompressible head, trivially compressible
     /// tail - growing the tail byte by byte moves the compressed size across the plain size
     Tail,
+    /// one repeated byte, except the very last byte which carries the tag: two payloads of one
+    /// length differ in their last byte only
+    LastByte,
 }
 
 /// A payload of `len` bytes. Low: a 4-symbol pattern (2 bits/byte, compressible, below the 6.0
@@ -44,6 +47,12 @@ pub fn payload(len: usize, entropy: Entropy, tag: u64) -> Vec<u8> {
             }
             if len > 0 {
                 v[0] = (tag & 0xff) as u8;
+            }
+        }
+        Entropy::LastByte => {
+            v.resize(len, b'k');
+            if len > 0 {
+                v[len - 1] = (tag & 0xff) as u8;
             }
         }
         Entropy::Tail => {
